@@ -784,9 +784,9 @@ class Grammar(Serialize):
 
                 for sym in expansion:
                     assert isinstance(sym, Symbol)
-                    if sym.is_term and exp_options and exp_options.keep_all_tokens:
-                        assert isinstance(sym, Terminal)
-                        sym.filter_out = False
+                if exp_options and exp_options.keep_all_tokens:
+                    # Copy instead of changing in place: a template argument is one object shared by every rule it reaches
+                    expansion = [Terminal(sym.name, filter_out=False) if sym.is_term else sym for sym in expansion]
                 rule = Rule(NonTerminal(name), expansion, i, alias, exp_options)
                 compiled_rules.append(rule)
 
